@@ -185,6 +185,24 @@ theorem jwe_fmt_compact_many_fails (w : World) (argv : List String) (os : List (
       | _ => rfl
     simp [hcnt]
 
+/-- **The compact form cannot carry `aad`** (after fix F36): `jose jwe fmt -c` of an object that has an `aad` member
+    fails, whatever else the object holds — a compact token without the aad could never be decrypted -/
+theorem jwe_fmt_compact_aad_fails (w : World) (argv : List String) (os : List (Char × String)) (arg : String) (inp : Input)
+    (a : Json)
+    (ho : parseOpts ['i', 'I', 'o', 'O'] argv = some os) (hi : lastOpt os 'i' = some arg)
+    (hin : inputSet w jweFields arg = some inp) (hc : hasFlag os 'c' = true)
+    (ha : inp.obj.get? "aad" = some a) :
+    jweFmt w argv = fail := by
+  simp only [jweFmt, ho, hi, Option.map_some, hin, hc, ha]
+  split
+  · rfl
+  · split <;> simp
+
+/-- non-vacuity: a one-recipient object with aad, `-c` fails; without `-c` it is printed -/
+example : ((jweFmt {} ["-i", "{\"ciphertext\":\"AA\",\"tag\":\"AA\",\"iv\":\"AA\",\"protected\":\"e30\",\"aad\":\"QQ\"}", "-c"]).status,
+           (jweFmt {} ["-i", "{\"ciphertext\":\"AA\",\"tag\":\"AA\",\"iv\":\"AA\",\"protected\":\"e30\",\"aad\":\"QQ\"}"]).status) = (1, 0) := by
+  decide +kernel
+
 /-- the compact conversion reads each leading field from the single recipient or from the top level;
     a field of another JSON type is a failure, an absent one is the empty text -/
 theorem compactFieldOf_top (obj : Json) (k : String) (h : obj.get? "recipients" = none) :
